@@ -55,7 +55,9 @@ def arrays(draw, max_models=6, need_models=True):
             'with_ap': draw(st.booleans()) or nap > 1, 'with_unc': draw(st.booleans()),
             'order': draw(st.sampled_from(['nu', 'wav'])), 'memmap': draw(st.booleans()),
             'distance_kpc': draw(st.sampled_from([1., 1., 0.14, 8.5])), 'ap_unit': draw(st.sampled_from(['au', 'au', 'pc', 'cm'])),
-            'err_other_unit': draw(st.booleans())}
+            'err_other_unit': draw(st.booleans()),
+            # what else is in the directory the file is written to: nothing, or an older compressed copy <name>.gz
+            'gz_sibling': draw(st.integers(0, 3)) == 0}
 
 
 def err_unit_of(case):
@@ -125,6 +127,13 @@ def run_sed(case, ctx):
         s.error = (np.array([[case['unc'][0][a][i] for i in sidx] for a in range(nap)]) * un).to(err_unit_of(case))
     with ctx.tempdir() as d:
         path = os.path.join(d, 'one_sed.fits')
+        if case.get('gz_sibling'):
+            # an older, compressed version of the model sits next to the file that is about to be written
+            w0 = [case['wav'][i] for i in sidx]
+            pkgio.write_sed_file(path + '.gz', 'older', w0, pkgio.wav_to_nu(w0), case['apertures'][:nap] if case['with_ap'] else None,
+                                 [[3.3 * case['val'][0][a][i] + 1. for i in sidx] for a in range(nap)],
+                                 [[0.5 * case['unc'][0][a][i] + 1. for i in sidx] for a in range(nap)], distance_cm=3.0856775814913674e21)
+            labels.add('older_gz_copy_next_to_the_file')
         with must_succeed('SED.write'):
             s.write(path)
         for order in (case['order'], 'wav' if case['order'] == 'nu' else 'nu'):
